@@ -64,6 +64,7 @@ Record e2e_case := {
   e_hdrs : list (string * string);          (* client header lines as sent *)
   e_body : string;
   e_cut : bool;                             (* the client cut its upload off before the framing was satisfied *)
+  e_retry : bool;                           (* the pool has a retryPolicy with 2 attempts *)
   e_resp_status : Z; e_resp_hdrs : list (string * string); e_resp_enc : enc; e_resp_body : string;
   (* oracles computed by the harness with the real libraries *)
   e_gzip : list (string * string);
@@ -127,18 +128,37 @@ Definition case_bresp (c : e2e_case) : bresp :=
   {| br_status := e_resp_status c; br_headers := mk_headers (e_resp_hdrs c);
      br_enc := e_resp_enc c; br_body := e_resp_body c |}.
 
+(** requests the backend receives for one client request.  With a retry policy (2 attempts)
+    a request whose payload is not a stream is sent again after ANY failure of the pool's
+    handler: a status among the failureCodes, or the gateway's own 500 (response over the
+    limit, undecodable body); the scripted backend answers the same again.  A RequestAdaptor
+    `body` replaces a streamed payload by a buffered one. *)
+Definition req_streamed (c : e2e_case) : bool :=
+  p_cstream (e_cfg c) && negb (a_on (p_ra (e_cfg c)) && nonempty (a_body (p_ra (e_cfg c)))).
+Definition retryable (c : e2e_case) : bool := e_retry c && negb (req_streamed c).
+Definition attempts (c : e2e_case) (w : option wresp) : Z :=
+  if retryable c &&
+     (failure_code (e_cfg c) (e_resp_status c) ||
+      (* the gateway's own failure response: status 500, no header, no body *)
+      match w with
+      | Some r => (w_status r =? 500) && (Nat.eqb (List.length (w_headers r)) 0) && String.eqb (w_body r) EmptyString &&
+                  match w_cl r with None => true | Some _ => false end
+      | None => false end)
+  then 2 else 1.
+
 Definition run_model (q : quirks) (c : e2e_case) : outcome :=
   exchange_cut q (case_fns c) (e_cfg c) (e_cut c) (case_creq c) (case_bresp c).
 
 Definition obs_of_outcome (c : e2e_case) (o : outcome) : e2e_obs :=
   let f := case_fns c in
+  let wopt := match o with Answered w _ => Some w | NoResponse _ => None end in
   let bpart (b : option breq) (x : e2e_obs) : e2e_obs :=
     match b with
     | None => x
     | Some r =>
         {| x_got := x_got x; x_status := x_status x; x_headers := x_headers x; x_cl := x_cl x; x_body := x_body x;
            x_frame := x_frame x; x_rest := x_rest x; x_dec := x_dec x;
-           x_bcount := 1; x_bmethod := bq_method r; x_btarget := bq_target r;
+           x_bcount := attempts c wopt; x_bmethod := bq_method r; x_btarget := bq_target r;
            x_bparsed := f_parse_target f (bq_target r);
            x_bhost := bq_host r; x_bheaders := bq_headers r; x_bbody := bq_body r;
            x_brest := match peel c (bq_headers r) (bq_body r) with Some p => fst p | None => [] end;
@@ -214,7 +234,8 @@ Definition prop_req (c : e2e_case) (x : e2e_obs) : bool :=
   | Some (path, query), Some (rest, content) =>
       let ra := p_ra cfg in
       let '(want_rest, want_b) := if a_on ra && nonempty (a_body ra) then ([], a_body ra) else (rest, content) in
-      (x_bcount x =? 1) &&
+      ((x_bcount x =? 1) ||
+       (retryable c && (x_bcount x =? 2) && (failure_code cfg (e_resp_status c) || (x_status x =? 500)))) &&
       String.eqb (x_bmethod x) (e_method c) &&
       opt_eqb pair_eqb (x_bparsed x) (Some (path, query)) &&
       opt_eqb String.eqb (x_bdec x) (Some want_b) && strs_eqb (x_brest x) want_rest &&
@@ -256,7 +277,10 @@ Definition prop_resp (cfg : pcfg) (ed : hedit) (src : e2e_case) (x : e2e_obs) : 
   (may_exceed cfg src && x_got x && (x_status x =? 500) && String.eqb (x_body x) EmptyString && x_frame x) ||
   let f := case_fns src in
   let bh := mk_headers (e_resp_hdrs src) in
-  let rs := p_rs cfg in
+  (* a status among the pool's failureCodes ends the pipeline at the Proxy: no ResponseAdaptor *)
+  let failed := failure_code cfg (e_resp_status src) in
+  let rs := if failed then {| a_on := false; a_body := ""; a_compress := false; a_decompress := false |} else p_rs cfg in
+  let ed := if failed then no_edit else ed in
   x_got x && (x_status x =? e_resp_status src) &&
   forallb (fun k =>
              if mem k (CE :: "Vary" :: "Content-Length" :: spec_hop_keys) then true
@@ -388,7 +412,7 @@ Fixpoint prop_steps (h : hist_case) (earlier : list e2e_case) (steps : list e2e_
       let x := e_obs c in
       (if negb (request_ok c) then true
        else if x_bcount x =? 0 then
-         existsb (fun j => same_request j c && (x_bcount (e_obs j) =? 1) && prop_resp (case_cfg h) (hi_edit h) j x) earlier
+         existsb (fun j => same_request j c && (1 <=? x_bcount (e_obs j)) && prop_resp (case_cfg h) (hi_edit h) j x) earlier
        else prop_req c x && prop_resp (case_cfg h) (hi_edit h) c x) &&
       prop_steps h (c :: earlier) t
   end.
@@ -408,7 +432,7 @@ Fixpoint with_obs (steps : list e2e_case) (outs : list outcome) : list e2e_case 
   match steps, outs with
   | c :: t, o :: t' =>
       {| e_cfg := e_cfg c; e_method := e_method c; e_target := e_target c; e_host := e_host c; e_hdrs := e_hdrs c;
-         e_body := e_body c; e_cut := e_cut c; e_resp_status := e_resp_status c; e_resp_hdrs := e_resp_hdrs c; e_resp_enc := e_resp_enc c;
+         e_body := e_body c; e_cut := e_cut c; e_retry := e_retry c; e_resp_status := e_resp_status c; e_resp_hdrs := e_resp_hdrs c; e_resp_enc := e_resp_enc c;
          e_resp_body := e_resp_body c; e_gzip := e_gzip c; e_gunzip := e_gunzip c; e_inflate := e_inflate c;
          e_req_peel := e_req_peel c; e_resp_peel := e_resp_peel c; e_client := e_client c; e_esc := e_esc c;
          e_out_dec := e_out_dec c; e_out_esc := e_out_esc c; e_parse := e_parse c; e_canon := e_canon c; e_bad := e_bad c;
